@@ -240,7 +240,7 @@ def sig_answer(m, cap_cv, cert_name, ver, role, prf, honest, ssl3=None):
             vb = md5h + shah if kt == 'rsa' else shah
             ans = P.pubkey_verify(pub, ver, None, bytearray(vb), sig, kt)
             m['a_ssl'] = md5h + shah              # what HandshakeHashes.digestSSL yields (the model's o_digestSSL)
-            m['a_sig'].append((CRED_ID[cert_name], m['a_ssl'], ans))
+            m['a_sig'].append((CRED_ID[cert_name], vb, ans))     # keyed by the RFC bytes: the model must compute the same
             m['sig_answer'] = ans
             return
         m['by_construction'].append('sig(sslv3)')   # ECDSA with SSLv3 is not specified anywhere
@@ -867,6 +867,83 @@ def site_ticket12(case, rng):
     return o
 
 
+def site_checker_nochain(case, rng):
+    """Checker with an x509Fingerprint and a peer that shows NO certificate: server with reqCert and a client
+    without certificate (empty Certificate message), client with an anonymous suite"""
+    ver, verifier = tuple(case['ver']), case['verifier']
+    r = Run(case, rng)
+    p = r.p
+    fp = loop.creds('client-rsa' if verifier == 'server' else 'rsa')[0].getFingerprint()
+    if verifier == 'server':
+        sc, sk = loop.creds('rsa')
+        r.send_hook(p.client, 'none')
+        r.recv_hook(p.client)
+        co, so = p.handshake(client_kw=dict(settings=vset(ver)),
+                             server_kw=dict(certChain=sc, privateKey=sk, reqCert=True, checker=Checker(x509Fingerprint=fp),
+                                            settings=vset(ver)))
+        vout, pout = so, co
+        m = base_model(4 if ver == (3, 4) else 2, ver)
+        m['req_cert'] = True
+        m['own_chain'] = [CRED_ID['rsa']]
+        m['cert'] = {'chain': [], 'cert': [], 'key': 0, 'keytype': 'rsa', 'curve_hash': None, 'policy': None, 'dc': []}
+        if ver == (3, 4):
+            m['prf'] = 'sha384'
+        else:
+            m['kx'] = kx_of(r.cap['suite']) if r.cap['suite'] is not None else 1
+        m['a_fin'].append((3 if ver == (3, 4) else 0, [11], True))
+    else:
+        r.send_hook(p.server, 'none')
+        r.recv_hook(p.server)
+        co, so = p.handshake(client_kw=dict(settings=vset(ver), checker=Checker(x509Fingerprint=fp)),
+                             server_kw=dict(anon=True, settings=vset(ver)), client_kind='anon')
+        vout, pout = co, so
+        m = base_model(1, ver)
+        m['kx'] = 4
+        m['a_fin'].append((1, [11], True))
+    m['want'] = [CRED_ID['client-rsa' if verifier == 'server' else 'rsa']]
+    o = finish(case, p, verifier, vout, pout, m, False, None)
+    o['key'] = 'no-certificate'
+    return o
+
+
+def site_checker_ticket(case, rng):
+    """the server's Checker rejects the client certificate of a full handshake; the tickets were already sent.
+    The same client then resumes: the call must not return with the rejected chain attributed"""
+    ver = tuple(case['ver'])
+    tk = [bytearray(b'\x33' * 32)]
+    wrong = loop.creds('ecdsa521')[0].getFingerprint()
+    cc, ck = loop.creds(case['key'])
+    sc, sk = loop.creds('rsa')
+    skw = dict(certChain=sc, privateKey=sk, reqCert=True, checker=Checker(x509Fingerprint=wrong),
+               settings=vset(ver, ticketKeys=tk))
+    p0 = loop.Pair()
+    co, so = p0.handshake(client_kw=dict(certChain=cc, privateKey=ck, settings=vset(ver)), server_kw=dict(skw))
+    loop.drive([p0.client.readAsync(max=0, min=0)])
+    sess = p0.client.session
+    first = loop.classify(so)
+    if first[0] != 'AuthError':
+        return {'site': case['site'], 'harness_error': 'the Checker did not reject the first handshake: %r' % (first,), 'case': case}
+    r = Run(case, rng)
+    p = r.p
+    r.send_hook(p.client, 'none')
+    r.recv_hook(p.client)
+    if sess is None or not (sess.tickets or sess.tls_1_0_tickets):
+        return {'site': case['site'], 'skip': True}
+    skw['settings'] = vset(ver, ticketKeys=tk)
+    co, so = p.handshake(client_kw=dict(session=sess, settings=vset(ver)), server_kw=skw)
+    m = base_model(4 if ver == (3, 4) else 6, ver)
+    m['psk'] = 5
+    m['ticket_chain'] = [CRED_ID[case['key']]]
+    m['own_chain'] = [CRED_ID['rsa']]
+    m['prf'] = 'sha384' if ver == (3, 4) else None
+    m['a_binder'].append((5, [9], True))
+    m['a_fin'].append((3 if ver == (3, 4) else 0, [11], True))
+    m['want'] = [CRED_ID['ecdsa521']]
+    o = finish(case, p, 'server', so, co, m, False, CRED_ID[case['key']])
+    o['checker_bypassed'] = o['code'] == 0 and o['ident']['client'] == CRED_ID[case['key']]
+    return o
+
+
 # ---- post-handshake authentication ---------------------------------------------------------
 def site_pha(case, rng):
     """(5) server under test: request_post_handshake_auth, then the client's Certificate /
@@ -1110,6 +1187,13 @@ def extra_cases(quick=False):
         for how in ['hash-change', 'expired']:
             for rq in (False, True):
                 out.append(dict(runner='ticket_replay', site='ticket-replay', ver=(3, 4), key=key, how=how, req_cert=rq))
+    for ver in [(3, 1), (3, 3), (3, 4)]:
+        out.append(dict(runner='checker_nochain', site='checker-nochain', ver=ver, how='no-certificate', verifier='server'))
+        if ver != (3, 4):
+            out.append(dict(runner='checker_nochain', site='checker-nochain', ver=ver, how='anonymous-suite', verifier='client'))
+    for ver in [(3, 3), (3, 4)]:
+        for key in ['client-rsa', 'client-ecdsa']:
+            out.append(dict(runner='checker_ticket', site='checker-ticket', ver=ver, key=key, how='rejected-then-resumed'))
     for ver in [(3, 1), (3, 3)]:
         for how in ['honest', 'wrong-master', 'other-user', 'bad-finished', 'userless-ticket-with-srp-hello']:
             out.append(dict(runner='ticket12', site='srp-ticket', ver=ver, how=how))
@@ -1135,7 +1219,7 @@ def extra_cases(quick=False):
     return out
 
 
-SITES = {'cert': site_cert, 'srp': site_srp, 'srp_unproved': site_srp_unproved, 'psk': site_psk, 'pha': site_pha, 'ticket': site_ticket, 'ticket12': site_ticket12, 'ticket_replay': site_ticket_replay, 'srp_multiple': site_srp_multiple,
+SITES = {'cert': site_cert, 'srp': site_srp, 'srp_unproved': site_srp_unproved, 'psk': site_psk, 'pha': site_pha, 'ticket': site_ticket, 'ticket12': site_ticket12, 'checker_nochain': site_checker_nochain, 'checker_ticket': site_checker_ticket, 'ticket_replay': site_ticket_replay, 'srp_multiple': site_srp_multiple,
          'dc': site_dc}
 
 
